@@ -56,6 +56,14 @@ FaultOK(ev) ==
        [] ev.cfg.fault = "decoder_panic" -> ev.result \in {"ok", "error"}
        [] OTHER -> FALSE
 
+\* Cheap NECESSARY conditions of the search below (Match: the counted errors never exceed the target; EpochEnd: the returned
+\* statistics stop exactly on it; Consume: no more frames than the decoders produced), evaluated first so that a run that
+\* overshoots is rejected at once instead of after an exhaustive search for an explanation that cannot exist.
+RErr(R, bch) == IF bch > 0 THEN R.bferr ELSE R.ferr
+Plausible(ev) ==
+  /\ \A k \in 1..Len(ev.reports) : ev.reports[k].finished \/ RErr(ev.reports[k], ev.cfg.bch) <= ev.cfg.target
+  /\ \A e \in 1..Len(ev.stats) : RErr(ev.stats[e], ev.cfg.bch) = ev.cfg.target
+
 Init == l = 1 /\ ph = "idle" /\ ep = 0 /\ pos = <<>> /\ cur = Zero /\ ri = 0 /\ lastErr = FALSE
 Idle == ph' = "idle" /\ ep' = 0 /\ pos' = <<>> /\ cur' = Zero /\ ri' = 0 /\ lastErr' = FALSE
 
@@ -65,6 +73,7 @@ Start ==
      IF ev.e # "BerRun" THEN Reject(l, "unknown event") /\ l' = l + 1 /\ Idle
      ELSE IF ev.cfg.fault # "none" THEN
           (IF FaultOK(ev) THEN Accept(l) ELSE Reject(l, "fault")) /\ l' = l + 1 /\ Idle
+     ELSE IF ev.o = "ok" /\ ev.result = "ok" /\ ~Plausible(ev) THEN Reject(l, "stopping rule") /\ l' = l + 1 /\ Idle
      ELSE /\ ev.o = "ok" /\ ev.result = "ok" /\ ev.built >= ev.cfg.epochs /\ ev.built % ev.cfg.epochs = 0   \* otherwise: no step, no ACCEPT
           /\ ph' = "run" /\ ep' = 1 /\ pos' = [d \in 1..ev.built |-> 0] /\ cur' = Zero /\ ri' = 1 /\ lastErr' = FALSE
           /\ UNCHANGED l
